@@ -1280,8 +1280,10 @@ impl RustRuleEngine {
                 if self.config.debug_mode {
                     println!("  🎯 Activating agenda group: {}", group);
                 }
-                // Sync with both workflow engine and agenda manager immediately
-                self.workflow_engine.activate_agenda_group(group.clone());
+                // Apply the activation to the agenda manager immediately. It must not also be
+                // queued in the workflow engine: the queue is replayed at the end of the pass,
+                // which activated the group a second time and reset its lock-on-active
+                // tracking, so a lock-on-active rule fired twice for one activation.
                 self.agenda_manager.set_focus(group);
             }
             ActionType::ScheduleRule {
